@@ -79,6 +79,9 @@ func runC01(c *Ctx) {
 	gSink(c, "C01.R2")
 	gQuote(c, "C01.R3")
 	escaperIdentity(c, f, "C01.R4")
+	if c.thorough() {
+		generatedSinks(c, "C01.R5")
+	}
 }
 
 // wrapperParams: unexported in-module functions that forward a parameter to a sink.
